@@ -23,7 +23,8 @@ def record(variant, parts, ck, wd, tag):
     for part in parts:
         outp = os.path.join(wd, '%s_%s.ndjson' % (tag, part))
         lines += vlib.run_harness([exe, '--seed', str(ck.seed), '--tier', ck.tier, '--part', part, '--out', outp], outp, timeout=1800)
-        os.remove(outp)
+        if os.path.exists(outp):
+            os.remove(outp)
     return lines
 
 
